@@ -24,6 +24,8 @@ structure Cfg where
   defersOOG : List (String × Bool)             -- Run defers HandleOutOfGasPanic
   bankMsgSendValidatesDenom : Bool             -- sdk.ValidateDenom(denom) precedes sdk.NewCoin(denom, …)
   sendToEvmValidatesDenom : Bool               -- sdk.ValidateDenom(bankDenom) precedes the BankDenom index lookup
+  getErc20AddressRejectsNul : Bool := true     -- parseArgsGetErc20Address: a denom that only passes the tokenfactory format check
+                                               -- is refused when it holds a null character (it would be a key of the same index)
 deriving Repr
 
 /-- Go map lookup: a missing key yields the zero value -/
@@ -32,7 +34,7 @@ def Cfg.defers (c : Cfg) (pc : String) : Bool := (AList.find? c.defersOOG pc).ge
 def Cfg.method? (c : Cfg) (pc name : String) : Option MethodInfo := c.methods.find? (fun m => m.pc = pc ∧ m.name = name)
 
 def cfgOfFacts (lenCheck : Bool) (isMut : List (String × Bool)) (cases : List (String × String × String × String))
-    (defers : List (String × Bool)) (raw : List (String × String × String × Bool)) : Cfg :=
+    (defers : List (String × Bool)) (raw : List (String × String × String × Bool)) (erc20AddrGuards : List String := []) : Cfg :=
   { requiredGasLenCheck := lenCheck
     isMutation := isMut
     methods := cases.map (fun (pc, name, _, g) => { pc := pc, name := name, guard := g })
@@ -40,7 +42,9 @@ def cfgOfFacts (lenCheck : Bool) (isMut : List (String × Bool)) (cases : List (
     bankMsgSendValidatesDenom := raw.any (fun (f, callee, _, v) => f = "bankMsgSend" ∧ callee = "sdk.NewCoin" ∧ v) ||
                                    !(raw.any (fun (f, callee, _, _) => f = "bankMsgSend" ∧ callee = "sdk.NewCoin"))
     sendToEvmValidatesDenom := raw.any (fun (f, callee, _, v) => f = "sendToEvm" ∧ callee = "BankDenom.ExactMatch" ∧ v) ||
-                                 !(raw.any (fun (f, callee, _, _) => f = "sendToEvm" ∧ callee = "BankDenom.ExactMatch")) }
+                                 !(raw.any (fun (f, callee, _, _) => f = "sendToEvm" ∧ callee = "BankDenom.ExactMatch"))
+    -- the guards of parseArgsGetErc20Address as the source has them (regenerated): the null-character refusal
+    getErc20AddressRejectsNul := erc20AddrGuards.contains "strings.ContainsRune(bankDenom, 0)" }
 
 /-- one call as the fork's runPrecompiledContract sees it -/
 structure Call where
@@ -92,12 +96,28 @@ def requiredGas (c : Cfg) (x : Call) : Option Nat :=
 
 def hasNul (s : String) : Bool := s.toList.any (· = Char.ofNat 0)
 
+/-- `tftypes.DenomStr.Validate`: three "/"-separated sections, the first one "tf", the other two not empty — nothing else -/
+def splitSlash : List Char → List (List Char)
+  | [] => [[]]
+  | c :: cs =>
+    match splitSlash cs with
+    | [] => [[c]]
+    | s :: ss => if c = '/' then [] :: s :: ss else (c :: s) :: ss
+
+def tfShaped (s : String) : Bool :=
+  match splitSlash s.toList with
+  | [a, b, c] => a = ['t', 'f'] && !b.isEmpty && !c.isEmpty
+  | _ => false
+
 /-- the body behind the guards: only the places where a panic can start are modelled -/
 def body (c : Cfg) (x : Call) (m : String) (gasLeft : Nat) : Stage :=
   if x.pc = "funtoken" ∧ m = "bankMsgSend" then
     if x.toOk && !validDenom x.denom && !c.bankMsgSendValidatesDenom then .panic else .run
   else if x.pc = "funtoken" ∧ m = "sendToEvm" then
     if hasNul x.denom && !c.sendToEvmValidatesDenom then .panic else .run
+  else if x.pc = "funtoken" ∧ m = "getErc20Address" then
+    -- sdk.ValidateDenom refuses a null character; the tokenfactory fallback lets it through when the string is tf-shaped
+    if hasNul x.denom && tfShaped x.denom && !c.getErc20AddressRejectsNul then .panic else .run
   else if x.pc = "oracle" then
     -- the first store read charges ReadCostFlat on the local gas meter; an out-of-gas panic needs a handler
     if x.pairOk && decide (gasLeft < readFlat) && !c.defers "oracle" then .panic else .run
@@ -146,7 +166,8 @@ def expectedIsMutation : List (String × Bool) :=
 
 /-- the source as this repository should have it -/
 def Cfg.Good (c : Cfg) : Prop :=
-  c.requiredGasLenCheck = true ∧ c.bankMsgSendValidatesDenom = true ∧ c.sendToEvmValidatesDenom = true ∧ c.defers "oracle" = true
+  c.requiredGasLenCheck = true ∧ c.bankMsgSendValidatesDenom = true ∧ c.sendToEvmValidatesDenom = true ∧ c.defers "oracle" = true ∧
+  c.getErc20AddressRejectsNul = true
 
 /-! ### line protocol -/
 
